@@ -34,7 +34,7 @@ CHECKS["C02"] = dict(
 _UDP_GEN = ("rapid-generated datagram histories through the real PacketHandler on a real dual-stack UDP socket: 1..7 client sockets on 127.x.y.z/::1 "
             "(shared IPs, distinct ports), 1..4 scripted targets on IPv4 and IPv6 loopback, key lists with all ciphers and duplicated material; operations: "
             "send (valid / truncated / bit-flipped / random / bad address type / short address / unsendable port 0 / a destination the world's policy refuses; any key of the universe), reply from a contacted target, "
-            "datagram from a never-contacted sender (replies up to 65507 bytes: beyond what one relayed datagram can carry delivery is optional, but never partial), expiry, key-list update under the running loop (with a former client coming back with a dropped key). Every operation's effect is awaited (fence datagram for must-not-happen) before the next. ")
+            "datagram from a never-contacted sender, also from this host's link-local address (zoned source) when it has one (replies up to 65507 bytes: beyond what one relayed datagram can carry delivery is optional, but never partial), expiry, key-list update under the running loop (with a former client coming back with a dropped key). Every operation's effect is awaited (fence datagram for must-not-happen) before the next. ")
 
 CHECKS["C03"] = dict(
     level="exploration",
